@@ -33,9 +33,10 @@ class C07(Check):
         "G6": "an untranslatable function makes generation raise",
         "G8": "derivative sums: d<var>dt = sum over the variable's reactions of coefficient * rate (numeric and computed coefficients alike, "
               "accumulated with +), built from every (reaction, variable) stoichiometry entry",
+        "G9": "the names returned are the names assigned: derivative sums are assigned to d<variable>dt and the return lists d<variable>dt",
         "G7": "the four back ends agree on free-parameter handling (removed from the assignments, appended to the signature)",
     }
-    floors = {"G1": 2, "G2": 1, "G3": 2, "G4": 12, "G5": 2, "G6": 3, "G7": 4, "G8": 2}
+    floors = {"G1": 2, "G2": 1, "G3": 2, "G4": 12, "G5": 2, "G6": 3, "G7": 4, "G8": 2, "G9": 1}
     decided = [
         "generated functions never read a derived quantity / reaction / parameter before it is assigned",
         "template well-formedness at the level of format fields; Python unpacking shape",
@@ -208,6 +209,16 @@ class C07(Check):
             self.holds("G8", MOD, GEN, "every-stoichiometry-entry", fill[0], "diff_eqs[variable][reaction] = coefficient for every entry of every reaction")
         else:
             self.violated("G8", MOD, GEN, "every-stoichiometry-entry", fill[0] if fill else gen, "not every (reaction, variable) stoichiometry entry reaches the derivative sums")
+        asg = [c for c in ast.walk(gen) if isinstance(c, ast.Call) and norm(c.func) == "assignment_template.format" and "dt" in norm(c)]
+        retn = [g for g in ast.walk(gen) if isinstance(g, ast.GeneratorExp) and isinstance(g.elt, ast.JoinedStr) and "ret_order" in norm(g.generators[0].iter)]
+        ka = {k.arg: k.value for k in asg[0].keywords}.get("k") if asg else None
+        pat_a = "".join(v.value if isinstance(v, ast.Constant) else "{}" for v in ka.values) if isinstance(ka, ast.JoinedStr) else None
+        pat_r = "".join(v.value if isinstance(v, ast.Constant) else "{}" for v in retn[0].elt.values) if retn else None
+        if pat_a is not None and pat_a == pat_r:
+            self.holds("G9", MOD, GEN, "returned-names-are-assigned", asg[0], f"assigned and returned as `{pat_a}`")
+        else:
+            self.violated("G9", MOD, GEN, "returned-names-are-assigned", asg[0] if asg else gen, f"derivative sums are assigned to `{pat_a}` but `{pat_r}` is returned",
+                          witness="the generated function returns names that were never assigned")
         sc2 = Scope(st)
         for c in [c for c in walk_no_nested(st) if isinstance(c, ast.Call) and dotted(c.func).split(".")[-1] == "fn_to_sympy"]:
             ok, why = call_site_visibility(c, sc2, st)
@@ -226,6 +237,7 @@ class C07(Check):
             Variant("ts-template-drops-k", MOD, "generate_model_code_ts", "'    let {k}: number = {v};'", "'    let k: number = {v};'", expect="G4|", quick=True),
             Variant("rs-return-template-no-field", MOD, "generate_model_code_rs", "return_template='    return [{}]'", "return_template='    return []'", expect="G4|"),
             Variant("reaction-none-emitted", MOD, GEN, "            if expr is None:\n                msg = f\"Unable to parse fn for reaction value '{name}'\"\n                raise ValueError(msg)\n", "", expect="G6|", quick=True),
+            Variant("derivative-name-mismatch", MOD, GEN, "k=f'd{variable}dt'", "k=f'd{variable}'", expect="G9|"),
             Variant("derivative-sum-sign", "meta/sympy_tools.py", "stoichiometries_to_sympy", "expr = expr + rxn_stoich * sympy.Symbol(rxn_name)", "expr = expr - rxn_stoich * sympy.Symbol(rxn_name)", expect="G8|"),
             Variant("rust-ignores-free-parameters", MOD, "generate_model_code_rs", "free_parameters=free_parameters", "free_parameters=None", expect="G7|"),
             Variant("free-parameters-still-assigned", MOD, GEN, "    if free_parameters is not None:\n        for key in free_parameters:\n            parameters.pop(key)\n", "", expect="G7|"),
